@@ -405,7 +405,7 @@ def embedded_code_rule(A: Analysis, col: Collector, rule: str):
 @prop(
     "C28",
     technique="resolved-call pass over code the offline suite never executes: signature agreement of statically resolved calls (attrs __init__ synthesised), self-attribute existence, None-flow and regex-match-guard analyses on CFGs, option-default dominance, status-table agreement, keyword check of the python snippets embedded in batch scripts",
-    decides="over workers/slurm.py, workers/sge.py, workers/base.py, workers/cf.py, workers/debug.py, scripts/run_pickled.py, load_and_run, load_job: every statically resolved repo call fits its callee's signature; every self.<attr> read names an attribute of the class; a local set to None is not dereferenced unguarded; a regex match object is tested before .group; dict-declared fields are not used arithmetically; SlurmWorker.run appends the default job-name/output/error only where the user gave none; the statuses requeued by run() are those _verify_exit_code returns by name, --no-requeue is honoured, failure = exit code != 0 or status != COMPLETED, RUNNING/PENDING keep polling; generated batch scripts call load_and_run with existing keywords.",
+    decides="over workers/slurm.py, workers/sge.py, workers/base.py, workers/cf.py, workers/debug.py, scripts/run_pickled.py, load_and_run, load_job: every statically resolved repo call fits its callee's signature; every self.<attr> read names an attribute of the class; a local set to None is not dereferenced unguarded; a regex match object is tested before .group; dict-declared fields are not used arithmetically; SlurmWorker.run appends the default job-name/output/error only where the user gave none; the statuses requeued by run() are those _verify_exit_code returns by name, --no-requeue is honoured, failure = exit code != 0 or status != COMPLETED, RUNNING/PENDING keep polling; generated batch scripts call load_and_run with existing keywords. Additionally: a helper that scans the user's sbatch_args scans the complete token list; the per-job tables that run() fills once are only read (never popped) by the polling functions, which are called again after a requeue.",
     not_decided="sequences of scheduler responses, timing, the schedulers' own semantics.",
     level_note="Trusted: attrs init synthesis; static call resolution (only calls with a unique static target are checked).",
 )
